@@ -1,5 +1,5 @@
 	// ===== engine K harnesses for rcgen/src/key_pair.rs =====
-	use crate::{PKCS_ED25519, PKCS_ECDSA_P256_SHA256, PKCS_RSA_SHA256};
+	use crate::{Error, KeyPair, RemoteKeyPair, SignatureAlgorithm, SubjectPublicKeyInfo, PKCS_ED25519, PKCS_ECDSA_P256_SHA256, PKCS_RSA_SHA256};
 
 	// ghost state: what the signer was asked to sign
 	static mut SEEN: [u8; 8] = [0; 8];
